@@ -96,6 +96,7 @@ type Exec struct {
 	noSummaryFor map[string]bool
 	shared    *sharedState
 	locksHeld int
+	inGo      int
 	harnessGlobals map[*Cell]bool
 	Effects   func(what, mode string, obj Value)
 }
@@ -683,7 +684,11 @@ func (ex *Exec) runBlock(fr *frame, b *ssa.BasicBlock) *ssa.BasicBlock {
 			// one schedule: the goroutine runs to completion at the point it is spawned
 			fnv, args := ex.prepareCall(fr, &in.Call)
 			ex.Notes = appendUniq(ex.Notes, "goroutine run synchronously at spawn: "+fr.fn.String())
+			// everything the new goroutine can reach through its arguments is shared with the
+			// goroutine that starts it (which keeps running): writes to it from inside race
+			undo := ex.enterGoroutine(fnv, args)
 			ex.callValue(fr, fnv, args, &in.Call, false)
+			undo()
 		case *ssa.RunDefers:
 			ex.runDefers(fr)
 		case *ssa.If:
@@ -1013,6 +1018,20 @@ func (ex *Exec) binop(fr *frame, op token.Token, xt types.Type, x, y Value, in *
 			}
 			return WrapInt(IntBig(r), bits, signed)
 		}
+		// both operands are 0/1 flags (results of constant-time comparisons etc.)
+		if in01(a) && in01(b) {
+			one := IntC(1)
+			switch op {
+			case token.AND:
+				return Ite(And(Eq(a, one), Eq(b, one)), IntC(1), IntC(0))
+			case token.OR:
+				return Ite(Or(Eq(a, one), Eq(b, one)), IntC(1), IntC(0))
+			case token.XOR:
+				return Ite(Eq(a, b), IntC(0), IntC(1))
+			case token.AND_NOT:
+				return Ite(And(Eq(a, one), Not(Eq(b, one))), IntC(1), IntC(0))
+			}
+		}
 		if op == token.AND {
 			if a.IsConst() {
 				a, b = b, a
@@ -1027,6 +1046,10 @@ func (ex *Exec) binop(fr *frame, op token.Token, xt types.Type, x, y Value, in *
 		}
 	}
 	panic(Inconclusive{fmt.Sprintf("integer op %s on symbolic operands in %s", op, fr.fn)})
+}
+
+func in01(t *Term) bool {
+	return t.lo != nil && t.hi != nil && t.lo.Sign() >= 0 && t.hi.Cmp(big.NewInt(1)) <= 0
 }
 
 // truncDiv is Go's truncated division on mathematical integers (b != 0 established).
